@@ -11,8 +11,10 @@ VOFFS = [0xffff880000000000, 0xffffffff80000000 - 0x1000000, 0x1000]
 
 
 class Layout:
-    def __init__(self, rng, path, ps=4096):
-        self.ps, self.path = ps, path
+    def __init__(self, rng, path, ps=4096, kind="elf"):
+        self.ps, self.path, self.kind = ps, path, kind
+        self.kphys_off = rng.choice([0, 0, ps, 3 * ps])     # KPHYS -> MACHPHYS = addr + off
+        self.cache = rng.choice([None, None, 2, 4]) if kind == "diskdump" else None
         self.segs = []
         pfn = rng.randint(0, 3)
         voff = rng.choice(VOFFS)
@@ -27,9 +29,18 @@ class Layout:
                 self.present[s["pfn"] + i] = s["voff"]
 
     def write(self):
-        dumpgen.write_elf(self.path, self.segs, ps=self.ps, nuls=self.nuls)
+        if self.kind == "elf":
+            dumpgen.write_elf(self.path, self.segs, ps=self.ps, nuls=self.nuls)
+        else:
+            pages = sorted(self.present)
+            top = max(pages) + 4
+            # RAM pages that are excluded from the file: their reads fail below the cache (the fill function fails)
+            dumpgen.write_diskdump(self.path, pages, ps=self.ps, max_mapnr=top, ram=range(top), nuls=self.nuls,
+                                   methods={p: ("zlib" if p % 3 == 0 else "raw") for p in pages})
 
     def to_as(self, as_, pa):
+        if as_ == 0:
+            return pa - self.kphys_off       # may be negative: caller skips
         return (pa + self.present[pa // self.ps]) % W if as_ == 2 else pa
 
     def universe(self):
@@ -38,6 +49,8 @@ class Layout:
         out = []
         for as_ in (0, 1):
             out += [(as_, p * self.ps) for p in range(top)]
+        if self.kind == "diskdump":
+            return out                      # no KVADDR without page tables
         vs = set()
         for s in self.segs:
             for i in range(-8, s["npages"] + 8):
@@ -93,7 +106,7 @@ def gen_cases(R, L):
             L.nuls.append(pg + rng.randint(0, 5))
         if rng.random() < 0.5:
             L.nuls.append(rng.randrange(a, b))
-    for as_ in (0, 1, 2):
+    for as_ in ((0, 1, 2) if L.kind == "elf" else (0, 1)):
         for (a, b) in runs:
             starts = {a, a + 1, b - 1, b - ps, b - ps - 1 if b - ps - 1 >= a else a, a + ps - 1 if a + ps <= b else a,
                       rng.randrange(a, b), b, a - 1}
@@ -130,13 +143,14 @@ def run(R):
     # phase 1: write dumps, discover the page oracle by single-page reads of the implementation
     probe_lines = []
     for li in range(nlay):
-        L = Layout(R.rng, R.path("c12-%d.elf" % li))
+        L = Layout(R.rng, R.path("c12-%d.dump" % li), kind="elf" if li % 3 else "diskdump")
         cases = gen_cases(R, L)
         L.write()
         L.uni = L.universe()
         layouts.append(L)
         allcases.append(cases)
         probe_lines.append("open %s %d" % (L.path, L.ps))
+        probe_lines.append("kphys_off %d" % L.kphys_off)
         probe_lines += ["probe %d %d %d" % (a, p, L.ps) for a, p in L.uni]
     rc, out, err = R.run_harness(exe, stdin_text="\n".join(probe_lines) + "\n")
     po = kdf.obs(out)
@@ -156,6 +170,9 @@ def run(R):
     lines, meta = [], []
     for li, L in enumerate(layouts):
         lines.append("open %s %d" % (L.path, L.ps)); meta.append(None)
+        lines.append("kphys_off %d" % L.kphys_off); meta.append(None)
+        if L.cache:
+            lines.append("cache %d" % L.cache); meta.append(None)
         miss_as = {}
         for (a, p), v in L.oracle.items():
             if isinstance(v, str):
